@@ -48,6 +48,11 @@ Render == /\ pc = "render"
 Next == NextFile \/ BuildHelpers \/ LoadTemplate \/ Render
 Spec == Init /\ [][Next]_vars
 
+\* the process terminates: every requested file is eventually rendered (weak fairness of the loop; GenLoop_live.cfg)
+FairSpec == Spec /\ WF_vars(Next)
+Terminates == <>(pc = "next" /\ todo = <<>>)
+AllRendered == \A f \in Files : (\E i \in 1..Len(todo) : todo[i] = f) ~> (\E i \in 1..Len(out) : out[i].file = f)
+
 TypeOK == pc \in {"next", "funcs", "load", "render"} /\ cur \in Files \cup {None}
 \* the requirement: every output is rendered with its own file's helpers
 PerFile == \A i \in 1..Len(out) : out[i].renderedWith = out[i].file
